@@ -530,6 +530,15 @@ pub fn judge(chain: &crate::chain::Chain, twin: &Store, native: &Store, version:
     }
     // bids (C15)
     let in_window = cls == VClass::InWindow;
+    // C14 "preserves the book": from the versions that may hold old-format bids, every bid is a
+    // readable current-format order afterwards (the stamped version says the state is current)
+    if in_window {
+        for (k, y) in post.0.iter().filter(|(k, _)| k.starts_with(BID_PREFIX)) {
+            if decode_bid("", y).is_err() {
+                out.v("C14", "C14/book-not-preserved/bid-unreadable-after-migration".into(), format!("{:?} = {}", lossy(k), lossy(y)), doc());
+            }
+        }
+    }
     for (k, x) in pre.0.iter().filter(|(k, _)| k.starts_with(BID_PREFIX)) {
         let y = match post.0.get(k) {
             Some(y) => y,
